@@ -83,7 +83,7 @@ def run(ctx: Context) -> None:
             alts = [norm(a) for a in ctx.prov.expand(rets[0].value, mh, rets[0])]
             want_filter = "if key.lower() not in set((key.lower() for key, value in"
             ok = len(alts) == 1 and alts[0].endswith("+([]ifoverride_headersisNoneelselist(override_headers))") and \
-                "ifkey.lower()notinset(" in alts[0] and "forkey,valuein([]ifdefault_headersisNoneelselist(default_headers))" in alts[0]
+                ("ifkey.lower()notinset(" in alts[0] or "ifkey.lower()notin{key.lower()for" in alts[0]) and "forkey,valuein([]ifdefault_headersisNoneelselist(default_headers))" in alts[0]
         rep.ob("C11.R1", fkey(tree, mh, "merge-shape"), ok, where(mh), "merge_headers returns [defaults whose lower-cased key is not overridden] + overrides")
         # ---- R2 CONNECT
         tf = N.func("http_proxy", "AsyncTunnelHTTPConnection.handle_async_request")
@@ -109,9 +109,14 @@ def run(ctx: Context) -> None:
         rep.floor("C11.R3", f"CONNECT status test ({tree})", len(ifs), 1)
         for n in ifs:
             pts = sorted(set(int_boundaries(n.test)) | {100, 199, 200, 204, 299, 300, 407, 500})
+            in_body = any(isinstance(x, ast.Raise) and "ProxyError" in norm(x) for x in n.body)
+            in_else = any(isinstance(x, ast.Raise) and "ProxyError" in norm(x) for x in n.orelse)
+            refusal = n.body if in_body or not in_else else n.orelse      # the branch that refuses (either polarity of the test)
+            pol = refusal is n.body
             tt = {v: peval(n.test, {"connect_response.status": v}) for v in pts}
+            tt = {v: (r if r is UNKNOWN else (bool(r) == pol)) for v, r in tt.items()}
             ok = all(tt[v] is not UNKNOWN and bool(tt[v]) == (v < 200 or v > 299) for v in pts)
-            raises = any(isinstance(x, ast.Raise) and "ProxyError" in norm(x) for x in n.body)
+            raises = in_body or in_else
             rep.ob("C11.R3", fkey(tree, tf, "refusal-interval"), ok and raises, where(tf, n),
                    "status test is exactly 'outside [200, 299]' and raises ProxyError" if ok and raises else f"refusal test deviates: { {v: r for v, r in tt.items() if r is UNKNOWN or bool(r) != (v < 200 or v > 299)} } raises={raises}")
             cfg = ctx.cfg(tf)
@@ -121,7 +126,7 @@ def run(ctx: Context) -> None:
             # nothing between the status test and the raise may fail with anything else: the refusal is reported as ProxyError
             # whatever the proxy sends after the head (the connection close is the only other effect of the branch)
             others = []
-            for st in n.body:
+            for st in refusal:
                 if isinstance(st, ast.Raise):
                     break
                 for x in cfg.nodes:
